@@ -146,12 +146,55 @@ def native_scales():
     return bad, n
 
 
+def native_units_snapshot():
+    """history: ONE options object serves a run stated in (mT, uA) and is then edited for a run stated in (uT, nA).  What the FIRST solution reports
+    (its units, its applied and total vector potential in SI) is the same before and after the edit and the second run."""
+    import logging
+    import os
+    import tempfile
+    import numpy as np
+    os.environ.setdefault("TQDM_DISABLE", "1")
+    logging.disable(logging.CRITICAL)
+    import tdgl
+    from tdgl.geometry import box
+    bad, n = [], 0
+    layer = tdgl.Layer(coherence_length=0.5, london_lambda=2, thickness=0.1, gamma=1)
+    dev = tdgl.Device("d", layer=layer, film=tdgl.Polygon("film", points=box(3, 2)), length_units="um")
+    dev.make_mesh(max_edge_length=0.6, smooth=3)
+    P = np.array([[0.3, 0.2, 1.0], [-0.8, 0.5, 1.5], [1.0, -0.6, 0.7]])
+    with tempfile.TemporaryDirectory() as td:
+        o = tdgl.SolverOptions(solve_time=0.3, output_file=os.path.join(td, "a.h5"), save_every=50, field_units="mT", current_units="uA", progress_interval=0)
+        s1 = tdgl.solve(dev, o, applied_vector_potential=0.4)
+
+        def report(sol):
+            parts = sol.vector_potential_at_position(P, units="tesla * meter", with_units=False, return_sum=False)
+            return dict(field_units=str(sol.field_units), current_units=str(sol.current_units), applied=np.asarray(parts["applied"]).copy(),
+                        currents=np.asarray(parts["supercurrent_density"]).copy(), K=sol.current_density.to("A / m").magnitude.copy())
+        before = report(s1)
+        o.field_units, o.current_units, o.output_file = "uT", "nA", os.path.join(td, "b.h5")
+        s2 = tdgl.solve(dev, o, applied_vector_potential=400.0)
+        after = report(s1)
+        second = report(s2)
+        n += 3
+        for k in before:
+            same = (before[k] == after[k]) if isinstance(before[k], str) else np.allclose(before[k], after[k], rtol=1e-9, atol=1e-30)
+            if not same:
+                bad.append(dict(what=f"a Solution's `{k}` changes when the options object it was created with is edited for another run (units are part of the problem as it was stated)",
+                                before=str(before[k])[:80], after=str(after[k])[:80]))
+        for k in ("applied", "currents", "K"):
+            if not np.allclose(before[k], second[k], rtol=1e-6, atol=1e-12 * np.abs(before[k]).max()):
+                bad.append(dict(what=f"the same physical problem stated in (uT, nA) instead of (mT, uA) reports another `{k}` in SI", max_rel=float(np.abs(before[k] - second[k]).max() / np.abs(before[k]).max())))
+    logging.disable(logging.NOTSET)
+    return bad, n
+
+
 def _bounded_quick():
     from checks import physics_native as pn
     b1, n1 = pn.units_cases(0, reduced=True)
     b2, n2 = pn.history_cases(0)
     b3, n3 = native_scales()
-    return b1 + b2 + b3, n1 + n2 + n3
+    b4, n4 = native_units_snapshot()
+    return b1 + b2 + b3 + b4, n1 + n2 + n3 + n4
 
 
 def units():
@@ -193,6 +236,10 @@ def replay(unit, obl):
     if unit.startswith("uniform_Bz_vector_potential"):
         from checks import field_common
         bad, n = field_common.native(0)
+        if bad:
+            return dict(confirmed=True, failing_input=bad[0], n_failing=len(bad), evaluations=n, tdgl_file=tdgl.__file__)
+    if unit.startswith("Solution."):
+        bad, n = native_units_snapshot()
         if bad:
             return dict(confirmed=True, failing_input=bad[0], n_failing=len(bad), evaluations=n, tdgl_file=tdgl.__file__)
     bad, n = pn.units_cases(0)
